@@ -75,7 +75,7 @@ PROP = Prop(
     contracts=[REGISTRY[OPT], REGISTRY[WB], REGISTRY['DocumentTemplate.DT_In.int_param']],
     claims=[OPT + '::ensures.start_lo', OPT + '::ensures.ordered', OPT + '::ensures.end_in_seq', OPT + '::ensures.start_in_seq',
             OPT + '::ensures.size_out', OPT + '::ensures.win_*', OPT + '::raises_only',
-            WB + '::cut*.C11.*', WB + '::call.opt.*', WB + '::cut*.in_window*', WB + '::cut*.size_pos*', WB + '::cut*.nonempty*',
+            WB + '::cut_*.C11.*', WB + '::call.opt.*', WB + '::cut_*.in_window*', WB + '::cut_*.size_pos*', WB + '::cut_*.nonempty*',
             'C11.lemma.*', '*int_param::frame.*'],
     lemmas=LEMMAS,
     native_default=native_c11.native_for,
